@@ -5,7 +5,7 @@
    write for it (C01_Model): SQL bytes and bound values; [render] writes "?" or "$n" for each value.
    [wfb] is the property's domain: every template has as many '?' as arguments (or only @names that
    are all defined), no '$', no digit at its front or right after a '?'. *)
-From Verif Require Import Base C01_Model C01_Stmt C01_Spec C01_Proofs C01_Proofs2 C01_Proofs7 C01_Proofs9.
+From Verif Require Import Base C01_Model C01_Stmt C01_Spec C01_Proofs C01_Proofs2 C01_Proofs7 C01_Proofs9 C01_Keys.
 
 (* the values reach the driver as bound parameters, in the left-to-right order of the arguments:
    slices one per element, empty slices none (or one NULL right after '('), nil one NULL, []byte one
@@ -67,6 +67,27 @@ Theorem c01_placeholders_numbered_pieces : forall ps,
   placeholders true (render true ps) = nseq (length (vars_of ps)).
 Proof. exact placeholders_numbered. Qed.
 Print Assumptions c01_placeholders_numbered_pieces.
+
+(* primary-key conditions (First(&x, key), Find(&x, k1, k2), Where(key), Delete(&x, keys)), for ALL keys:
+   a driver.Valuer that yields a non-nil value (not a []byte), given as the only key, is ONE key
+   whatever its Go kind - the condition is `key column = ?`, bound once to the Valuer's value *)
+Theorem c01_valuer_key_bound_once : forall numbered e s, scalar_key s ->
+  map (bval numbered e) (build_condition (VDrv s) []) =
+  [ptext (quote_col e current_table primary_key "" false) ++ pstr " = " ++ [PV s]].
+Proof. exact valuer_key_bound_once. Qed.
+Print Assumptions c01_valuer_key_bound_once.
+
+(* a list as the only argument is the list of keys, whatever its element type (LU8 included) *)
+Theorem c01_list_key : forall k x l, build_condition (VList k (x :: l)) [] = [VIn primary_column (x :: l)].
+Proof. exact list_key_cond. Qed.
+Print Assumptions c01_list_key.
+
+(* several keys: IN over all of them; a Valuer or a list among them reaches AddVar whole *)
+Theorem c01_many_keys : forall q a args,
+  plain_key q = true -> unwrapped_nonnil q = true -> forallb plain_key (a :: args) = true ->
+  build_condition q (a :: args) = [VIn primary_column (q :: a :: args)].
+Proof. exact many_keys_cond. Qed.
+Print Assumptions c01_many_keys.
 
 (* non-vacuity: a chain with a named template, a slice after '(', a sub-query, an already built
    sub-query with eleven values, nil, a driver.Valuer and a finisher adding LIMIT is in the domain *)
